@@ -32,7 +32,7 @@ def decPTable (names : List Name) (s : String) : Parse Nat :=
     | some i =>
       match (tbl.getD i "?").toList with
       | 'v' :: ds => .ok (decNat (String.ofList ds))
-      | ['S'] => .error .syntax
+      | ['S'] => .error .syntaxError
       | ['X'] => .error .other
       | _ => .ok missId
 
@@ -46,7 +46,7 @@ def encDict (names : List Name) (d : D) : String :=
   ",".intercalate ((sortItems d).map (fun p => encName names p.1 ++ "=" ++ toString p.2))
 
 def encPErr : PErr → String
-  | .syntax => "err:StyleSyntaxError"
+  | .syntaxError => "err:StyleSyntaxError"
   | .other => "err:Other"
 
 def decSV (names : List Name) (s : String) : SV Nat :=
